@@ -22,6 +22,11 @@ Section Iter.
   Variable prof : list XQ.            (* likelihood of the library rows in evaluation order (all_idx order) *)
   Variable n_req : nat.
   Variable budget : nat.              (* max_prior_samples (or the library size) *)
+  (* the sampler's own estimate of the next batch size, int(safety_factor * n_need / n_good * n_evaluated), was not positive
+     after the last recorded iteration: the loop then ends with what it has.  (Mathematically the estimate is >= 1; in
+     floating point (1/n)*n < 1 for n = 49, 98, 103, ..: with every evaluated sample accepted and one sample missing the
+     in-memory loop stops early.  The property allows fewer samples than requested when fewer passed.) *)
+  Variable early_ok : bool.
 
   (* one loop iteration per (batch size, draws) pair; [c] = rows evaluated so far *)
   Fixpoint it_loop (fuel : nat) (c : nat) (steps : list (nat * list Q)) : it_outcome :=
@@ -49,7 +54,8 @@ Section Iter.
                     match rest with [] => ItOk (firstn n_req good) c' | _ => ItRaise ErrProtocol end   (* budget exhausted: stop with fewer *)
                   else
                     match rest with
-                    | [] => ItRaise ErrProtocol                       (* stopped although samples were missing and budget was left *)
+                    | [] => if early_ok then ItOk (firstn n_req good) c'   (* the code's next-batch estimate was not positive *)
+                            else ItRaise ErrProtocol                   (* stopped although samples were missing and budget was left *)
                     | (size', _) :: _ => if Nat.eqb size' 0 then ItRaise ErrProtocol else it_loop fuel' c' rest
                     end
               end
@@ -79,6 +85,7 @@ Record it_case := mk_it_case {
   ic_budget : nat;
   ic_first : nat;                     (* init_batch_size or growth_factor * n_requested *)
   ic_maxiter : nat;
+  ic_early_ok : bool;                 (* the code's estimate of the next batch size after the last iteration was <= 0 *)
   ic_n_linear : nat;
   ic_lnprior_lib : list XQ;
   ic_steps : list (nat * list Q);     (* per iteration: batch size, uniform draws *)
@@ -93,7 +100,7 @@ Definition err_eqb (a b : it_error) : bool :=
   end.
 
 Definition it_check (prec : positive) (c : it_case) : option bool :=
-  match it_run (dec_exp prec) (ic_inmem c) (ic_prof c) (ic_n_req c) (ic_budget c) (ic_maxiter c) (ic_first c) (ic_steps c), ic_obs c with
+  match it_run (dec_exp prec) (ic_inmem c) (ic_prof c) (ic_n_req c) (ic_budget c) (ic_early_ok c) (ic_maxiter c) (ic_first c) (ic_steps c), ic_obs c with
   | ItUndecided, _ => None
   | ItOk good _, ObsRows rows ll lp =>
       let full := full_idx (ic_order c) good in
